@@ -224,7 +224,9 @@ def get_cauchy_point(
             nseg, f_prime, f_second, delta_t, delta_t_min, iprint, logger
         )
 
-        if delta_t_min < delta_t:
+        # delta_t == 0: this breakpoint is tied with the previous one. f' is only
+        # meaningful once every variable of the tie has been fixed, so no test here.
+        if delta_t > 0 and delta_t_min < delta_t:
             is_gpc_found = True
             break
 
